@@ -5,7 +5,7 @@
 //!         "nb": bool, "limit_ms": n (0 = no SO_RCVTIMEO/SO_SNDTIMEO), "t0": "<ns>",
 //!         "segs": [len..], "script": [{"dt": "<ns>", "r": "moved|wouldblock|eintr|fail", "n": k}],
 //!         "waitfail": [bool..]}`
-//! Observation (one object): `{"ret", "errno", "reqs": [{"count","nb","ranges":[[seg,off,len]..]}],
+//! Observation (one object): `{"ret", "errno", "reqs": [{"count","nb","ranges":[[seg,off,len]..],"err","moved"}],
 //!         "data": [ids..], "waits": [ns..], "nb_after": bool}`.
 //! Stream byte `i` (0-based) carries the value `i+1`; caller position `p` of a write buffer holds
 //! `p+1`; untouched read buffer bytes are 0. `data` is the flattened caller buffers after a read
@@ -96,8 +96,7 @@ impl Ctx {
             ranges.push(json!([k, off, len]));
             usable.push((p, len, u));
         }
-        self.reqs.push(json!({"count": count, "nb": nb, "ranges": ranges}));
-        match resp {
+        let (r, err) = match resp {
             Resp::Moved(n) => {
                 let mut left = n;
                 let mut moved = 0usize;
@@ -121,26 +120,17 @@ impl Ctx {
                         break; // never go past the end of a caller segment
                     }
                 }
-                set_errno(0);
-                isize::try_from(moved).expect("moved")
+                (isize::try_from(moved).expect("moved"), 0)
             }
-            Resp::Done => {
-                set_errno(0);
-                0
-            }
-            Resp::WouldBlock => {
-                set_errno(libc::EAGAIN);
-                -1
-            }
-            Resp::Interrupted => {
-                set_errno(libc::EINTR);
-                -1
-            }
-            Resp::Fail(e) => {
-                set_errno(e);
-                -1
-            }
-        }
+            Resp::Done => (0, 0),
+            Resp::WouldBlock => (-1, libc::EAGAIN),
+            Resp::Interrupted => (-1, libc::EINTR),
+            Resp::Fail(e) => (-1, e),
+        };
+        let moved = if r > 0 { r } else { 0 };
+        self.reqs.push(json!({"count": count, "nb": nb, "ranges": ranges, "err": err, "moved": moved}));
+        set_errno(err);
+        r
     }
 
     /// Read the iovec array the hooked code passed: as many entries as must exist given the
